@@ -186,8 +186,66 @@ def extra_probes(ctx, n: int) -> None:
         mutate_case(rep, r)
 
 
+def transport_case(rep, r: dict) -> None:
+    """the transport law through a *vectorised* lattice element: beta, alpha and the emittance behind a quadrupole whose k1 is
+    a scan (through exactly 0) follow, entry by entry, M Sigma M^T with that entry's thick-lens matrix — computed here from
+    the closed form, independently of the code"""
+    import math
+    import numpy as np
+    import torch
+    import cheetah
+    dt = torch.float64
+    t = lambda v: torch.tensor(v, dtype=dt)  # noqa: E731
+    L, ks, En = r["L"], r["k1"], r["energy"]
+    tw = r["twiss"]
+    b = cheetah.ParameterBeam.from_twiss(beta_x=t(tw["bx"]), alpha_x=t(tw["ax"]), emittance_x=t(tw["ex"]), beta_y=t(tw["by"]),
+                                         alpha_y=t(tw["ay"]), emittance_y=t(tw["ey"]), energy=t(En), dtype=dt)
+    q = cheetah.Quadrupole(length=t(L), k1=t(ks), dtype=dt)
+    out = q.track(b)
+    got = {k: getattr(out, k).detach().numpy().reshape(-1) * np.ones(len(ks)) for k in ("beta_x", "alpha_x", "emittance_x", "beta_y", "alpha_y", "emittance_y")}
+
+    def m2(k):
+        if k == 0.0:
+            return 1.0, L, 0.0, 1.0
+        if k > 0:
+            w = math.sqrt(k)
+            return math.cos(w * L), math.sin(w * L) / w, -w * math.sin(w * L), math.cos(w * L)
+        w = math.sqrt(-k)
+        return math.cosh(w * L), math.sinh(w * L) / w, w * math.sinh(w * L), math.cosh(w * L)
+    for i, k in enumerate(ks):
+        for pl, kk in (("x", k), ("y", -k)):
+            be, al, em = tw["b" + pl], tw["a" + pl], tw["e" + pl]
+            ga = (1 + al * al) / be
+            a, bb, c, d = m2(kk)
+            be1 = a * a * be - 2 * a * bb * al + bb * bb * ga
+            al1 = -a * c * be + (a * d + bb * c) * al - bb * d * ga
+            for nm, want, have in ((f"beta_{pl}", be1, got[f"beta_{pl}"][i]), (f"alpha_{pl}", al1, got[f"alpha_{pl}"][i]),
+                                   (f"emittance_{pl}", em, got[f"emittance_{pl}"][i])):
+                if not abs(have - want) <= 1e-8 * (abs(want) + abs(be1) / max(be, 1e-30) + 1.0):
+                    rep.fail("falsifier", f"C17|transport|vectorised Quadrupole k1, zeros:{'some' if 0.0 in ks else 'none'}|{nm.split('_')[0]}",
+                             f"ParameterBeam behind Quadrupole(L={L!r}, k1={ks}): {nm} of entry {i} (k1 = {k!r}) is {have!r}, the transport law gives {want!r}", r)
+                    return
+
+
+def transport_probe(ctx, n: int) -> None:
+    import elements as E
+    rep, rng = ctx.report, ctx.rng
+    for i in range(n):
+        ks = [float(x) for x in rng.permutation([float(rng.uniform(0.5, 6.0)), -float(rng.uniform(0.5, 6.0)), 0.0, float(rng.uniform(-2, 2))])]
+        if i % 3 == 2:
+            ks = [k for k in ks if k != 0.0]
+        r = {"kind": "twiss_transport", "L": float(E.pick(rng, 0.2, 0.5, 1.0)), "k1": ks, "energy": float(E.energy(rng)),
+             "twiss": {"bx": float(rng.uniform(0.5, 20)), "ax": float(rng.uniform(-2, 2)), "ex": float(10 ** rng.uniform(-9, -6)),
+                       "by": float(rng.uniform(0.5, 20)), "ay": float(rng.uniform(-2, 2)), "ey": float(10 ** rng.uniform(-9, -6))}}
+        rep.fals_cases += 1
+        rep.count("probe:transport-vector")
+        rep.case(("twiss_transport", 0.0 in ks), None)
+        transport_case(rep, r)
+
+
 def run(ctx) -> None:
     extra_probes(ctx, ctx.n(8, 120))
+    transport_probe(ctx, ctx.n(9, 200))
     extreme_probe(ctx, ctx.n(12, 200))
     run_twiss_correspondence(ctx, "C17", ctx.n(60, 1500))
     run_stats_correspondence(ctx, "C17", ctx.n(60, 1500))
@@ -198,6 +256,8 @@ def run(ctx) -> None:
 def corpus_case(ctx, r: dict) -> None:
     if r.get("kind") == "twiss_grid":
         return grid_case(ctx.report, r)
+    if r.get("kind") == "twiss_transport":
+        return transport_case(ctx.report, r)
     if r.get("kind") == "twiss_mutate":
         return mutate_case(ctx.report, r)
     if r.get("kind") == "twiss_extreme":
